@@ -74,7 +74,7 @@ pub fn check_bound(
 
 fn bound_relation(ch: &mut Choices, case: &mut Case) -> Result<(), String> {
     let base_year = if ch.chance(85) { 2020 } else { ch.pick(&[1900, 9990]) };
-    let cfg = Cfg { max_rules: 3, base_year, dense: ch.chance(40), max_day_offset: 40, ..Cfg::default() };
+    let cfg = Cfg { max_rules: 3, base_year, dense: ch.chance(40), max_day_offset: 40, jumpable_pct: 15, ..Cfg::default() };
     let g = gen_case(ch, &cfg)?;
     label_expr(&g.ast, case);
     let dates = DateGen::new(&g.ast, g.base_year, &g.holidays.model);
